@@ -366,6 +366,9 @@ def reply_for(verdict, variant):
     if variant % 2:
         r.address = ('mx%d.sim' % variant, 25) if variant % 4 == 1 \
             else 'mx%d.sim' % variant
+        if variant % 8 == 5:
+            # what getpeername() gives for an IPv6 peer
+            r.address = ('2001:db8::%d' % variant, 25, 0, 0)
         r.command = b'RCPT' if variant % 4 == 1 else None
     return r
 
